@@ -10,13 +10,13 @@ V = os.path.dirname(os.path.dirname(os.path.abspath(__file__)))
 
 CHECKS = {
     "C01": dict(cat="exploration", tech="reference k-way merge model over generated multi-source runs under perturbed worker schedules (runtime monitor on stdout)",
-                text="Runs the real s4 binary on generated sets of 1..8 sources (plain/compressed/tar text, fixed-struct records) with ties, sub-second steps and mixed UTC offsets, in many argument orders and under hook-injected worker schedules; stdout must equal the reference merge byte for byte. Held = on the executions observed.",
+                text="Runs the real s4 binary on generated sets of 1..8 text sources (plain/gz/bz2/xz/lz4/tar) with ties, 1 ns..1 s steps and mixed UTC offsets, in many argument orders and under hook-injected worker schedules; stdout must equal the reference merge byte for byte. Part 2 merges text, fixed-struct, evtx and journal sources and compares the hook trace's print events (source, instant) with the reference merge over instant lists taken from the generator and from independent readers (evtx-crate dump, journalctl). Held = on the executions observed.",
                 note="generator-known instants; python codecs produce valid streams; schedule reach is what the delays produced (counted in evidence)", ref="4/C01"),
     "C02": dict(cat="exploration", tech="byte-exact reference message model at the binary + in-process exhaustive line/sysline reader sweep over every block size (runtime oracle), ASan sample",
                 text="Boundary-directed generated text logs (CRLF, NUL, non-UTF-8, long lines) printed by s4 at many block sizes must equal the file suffix from the first timestamped line; in-process harness enumerates small files x every block size against a reference line splitter.",
                 note="continuation lines contain no digits so the reference grouping is unambiguous", ref="4/C02"),
     "C03": dict(cat="exploration", tech="window oracle (A<=t<=B) over generator-known instants; metamorphic windowed==filtered(unwindowed); all source kinds",
-                text="Generated chronological sources with duplicate-timestamp runs; windows placed before/between/exactly on/after instants; binary-search (plain) and linear (streamed) strategies; utmp, evtx, journal windows against independent dumps.",
+                text="Generated chronological text sources with duplicate-timestamp runs; windows placed before/between/exactly on/+-1us/after instants and A=B; binary-search (plain) and linear (streamed) strategies at 6 block sizes; fixed-struct records through C08's record model with a window on every case; evtx and journal windows against the independent dump / journalctl.",
                 note="bounds are passed in absolute form with explicit offset", ref="4/C03"),
     "C04": dict(cat="exploration", tech="instant oracle: timestamps rendered by an independent notation catalogue from integer instants, compared with s4's --prepend-utc output",
                 text="Per (notation, zone spelling, fraction length) one file; dates sweep 1970..2099 including month ends and leap days; offsets in 15-minute steps; named zones; -t values.",
@@ -28,7 +28,7 @@ CHECKS = {
                 text="Every hooked run's trace is replayed against the channel/print protocol: FileInfo NewMessage* FileSummary per worker, print only when every live source has a pending datum, print = (dt, pathid) minimum, prints == messages received, loop ends normally; stdout identical across schedules.",
                 note="hooks log under one mutex so trace order is a total order consistent with real time at the log points; liveness restated as bounded progress", ref="4/C06"),
     "C07": dict(cat="fault_enumeration", tech="fault injection (truncation, corruption, random bytes, mismatching names) under AddressSanitizer and release builds; process-status + sanitizer-report oracle; valgrind/Miri in thorough",
-                text="Faulted inputs of every kind and container, alone and beside valid sources; no signal/abort/panic, exit in {0,1}, no sanitizer report, valid sources' messages all present in order.",
+                text="Faulted inputs of every kind and container (truncation at every offset or offset class, 1/2/4/8-byte overwrites, random/zero/0xFF/printable byte strings, mismatching names), alone and beside 1..3 valid sources, run on the AddressSanitizer build: no signal/abort/panic, exit in {0,1}, no sanitizer report, no hang (watchdog + /proc probe), valid sources' messages all present in order; cases stopped by a known sanitizer report are re-run on the release build.",
                 note="ASan sees only what the workload reaches; intra-object overflows are invisible to it", ref="4/C07"),
     "C08": dict(cat="exploration", tech="reference stable sort of generated fixed-struct records (independent python layout tables) vs s4 output; ASan build for full-width fields",
                 text="All 16 record layouts, duplicate/reversed/equal times, null records, full-width fields, block sizes and containers.",
@@ -107,7 +107,7 @@ def main():
                      "kind_free_text": "python runtime monitors over the hooked s4 binary (stdout/stderr/trace/exit status oracles), ASan/valgrind/Miri builds, in-process Rust harness"}],
         "checks": checks,
         "not_applicable": na,
-        "notes": "All checks rebuild s4 from /repo's working tree with --cfg s4_verif. Known findings: known_findings.json.",
+        "notes": "All checks rebuild s4 (and the in-process harness / ASan build where used) from /repo's working tree with --cfg s4_verif. Genuine defects that were recorded rather than repaired: known_findings.json (status 'known'; 'fixed' entries are history and suppress nothing). Seeded changes and the detection matrix: seeded/, seeded_own/. DESIGN.md sections 11-14 describe the as-built state.",
     }
     with open(os.path.join(V, "MANIFEST.json"), "w") as f:
         json.dump(m, f, indent=1)
